@@ -988,9 +988,16 @@ def run(chk):
             extra = [k for k in got if k not in wanted]
             if missing or extra:
                 chk.violation("loaded repository does not show the targets that were put in: missing %s, unexpected %s" % (missing[:4], extra[:4]), full)
+            # all_targets lists the top-level role's own entries first (pre-order): for a name the top-level role
+            # holds, the first listing is the top-level role's
+            got_all = {}
+            for t in view["targets"]:
+                got_all.setdefault(C.b2s(t[0]), []).append((t[1], C.b2s(t[2])))
             for k in wanted:
                 if k in got and got[k] != wanted[k] and k not in it.top:
                     chk.violation("target %r loads with length/digest %s, put in %s" % (k, got[k], wanted[k]), full)
+                if k in it.top and k in got_all and got_all[k][0] != wanted[k]:
+                    chk.violation("top-level target %r loads with length/digest %s, put in (last) %s" % (k, got_all[k][0], wanted[k]), full)
             if tuple(view["versions"][1:]) != (it.versions[2], it.versions[1], it.versions[0]):
                 chk.violation("versions loaded %s differ from those set %s" % (view["versions"], it.versions), full)
             roles = sorted(C.b2s(r) for r in view["roles"])
